@@ -195,8 +195,8 @@ func readICCP(r binary.Reader, chunkLen uint32) ([]byte, error) {
 	}
 
 	// Extract ICCP.
-	data := make([]byte, ch.Length)
-	if _, err := io.ReadFull(r, data); err != nil {
+	data, err := binary.ReadBytes(r, ch.Length)
+	if err != nil {
 		return nil, err
 	}
 	return data, nil
